@@ -3484,3 +3484,51 @@ func nodeIdentityImmutable(c *Check, a *Anchors) {
 	}
 	c.Floor("node-identity-immutable", n, 3)
 }
+
+// stateAbsentMeansStale (C04): without a recorded run there is nothing to be up to date with.
+func stateAbsentMeansStale(c *Check, a *Anchors) {
+	c.Rule("state-absent-means-stale", "in the timestamp checker's IsUpToDate every return that can answer 'up to date' is dominated by the nil edge of the os.Stat of the task's state file: the state file is what a failed run removes (OnError), so when it does not exist the generated files that a failed attempt left behind must not make the task look up to date")
+	ts := c.P.Func(PkgFingerprint, "TimestampChecker", "IsUpToDate")
+	if ts == nil {
+		c.Errorf("state-absent-means-stale: TimestampChecker.IsUpToDate not found")
+		return
+	}
+	c.Fn(ts)
+	info := ts.Info()
+	// the state path variable: result of a string-returning method of the checker
+	var pathVar *types.Var
+	inspectBody(ts.Body, func(nd ast.Node) bool {
+		if as, ok := nd.(*ast.AssignStmt); ok && len(as.Lhs) == 1 && len(as.Rhs) == 1 {
+			if call, ok := ast.Unparen(as.Rhs[0]).(*ast.CallExpr); ok {
+				if fn, ok := callee(info, call).(*types.Func); ok && fn.Pkg() != nil && fn.Pkg().Path() == PkgFingerprint {
+					if sig := fn.Type().(*types.Signature); sig.Recv() != nil && sig.Results().Len() == 1 && types.TypeString(sig.Results().At(0).Type(), nil) == "string" {
+						pathVar = varOf(info, as.Lhs[0])
+					}
+				}
+			}
+		}
+		return true
+	})
+	if pathVar == nil {
+		c.Errorf("state-absent-means-stale: state path variable not identified")
+		return
+	}
+	f := NewFlow(c.P, ts, func(call *ast.CallExpr, obj types.Object) string {
+		if isFunc(obj, "os", "", "Stat") && len(call.Args) == 1 && varOf(info, call.Args[0]) == pathVar {
+			return "stat-state"
+		}
+		return ""
+	})
+	f.Run()
+	n := 0
+	for i, r := range f.Returns {
+		if len(r.Results) != 2 || constIs(info, r.Results[0], "false") {
+			continue
+		}
+		n++
+		st := f.At[r]
+		c.Decide(st.Has("nil:stat-state"), "state-absent-means-stale", fmt.Sprintf("true-capable-return#%d@%s", i+1, fnDisplay(ts)), r.Pos(), "only reachable when the state file exists",
+			"the timestamp checker can answer 'up to date' on a path where its state file does not exist (never ran, or the last run failed and removed it): output written by a failed attempt makes the next run skip the task; must-facts: "+st.String())
+	}
+	c.Floor("state-absent-means-stale", n, 1)
+}
